@@ -3,5 +3,6 @@ CONSTANTS
   MaxMembers = 1
   MaxGhosts = 3
   AllItems = FALSE
+  TNs = {FALSE}
 INVARIANTS Emit NoClash
 CHECK_DEADLOCK FALSE
